@@ -81,7 +81,43 @@ def dominators(body, entry=0, succ=None, pred=None, nodes=None):
             if new != dom[n]:
                 dom[n] = new
                 changed = True
+    if entry == 0 and succ is body.succ:
+        return _Dom(body, dom)
     return dom
+
+
+class _DomSet(frozenset):
+    """dominators of one block; `a in s` also holds when every *feasible* path (variant-tracked) from the entry
+    to the block passes a — the same fact on the graph without the infeasible edges that helper inlining and
+    merged Result / Option values introduce"""
+    def __new__(cls, items, body, b):
+        o = super().__new__(cls, items)
+        o._body, _b = body, b
+        o._b = b
+        return o
+
+    def __contains__(self, a):
+        if frozenset.__contains__(self, a):
+            return True
+        if not isinstance(a, int) or a == self._b:
+            return False
+        live = self._body.reachable_blocks()
+        if a not in live or self._b not in live:
+            return False
+        cache = self._body.__dict__.setdefault("_fdom", {})
+        if a not in cache:
+            cache[a] = explore(self._body, 0, avoid=[a])[0]   # everything reachable on feasible paths without passing a
+        return self._b not in cache[a]
+
+
+class _Dom(dict):
+    def __init__(self, body, plain):
+        super().__init__()
+        for b, s in plain.items():
+            dict.__setitem__(self, b, _DomSet(s, body, b))
+
+    def get(self, k, default=()):
+        return dict.get(self, k, default)
 
 
 def dominates(dom, a, b):
@@ -318,6 +354,40 @@ def _block_effects(body, bb):
     return eff
 
 
+def _relevant_locals(body):
+    """locals whose shape can influence a `switch discriminant(..)`: the switch subjects and, transitively,
+    everything copied / aggregated / `?`-mapped into them. Only these are tracked by explore()."""
+    c = getattr(body, "_relv", None)
+    if c is not None:
+        return c
+    rel = set()
+    for bb in range(body.nblocks):
+        sw = _switch_subject(body, bb)
+        if sw is not None:
+            rel.add(sw[0][1])
+    changed = True
+    effs = [(_block_effects(body, bb)) for bb in range(body.nblocks)]
+    while changed:
+        changed = False
+        for eff in effs:
+            for (l, v) in eff:
+                if l not in rel or v is None:
+                    continue
+                srcs = []
+                if v[0] == "place":
+                    srcs = [v[1]]
+                elif v[0] == "branch":
+                    srcs = [v[1]]
+                elif v[0] == "agg":
+                    srcs = [o[1] for o in v[2] if o is not None]
+                for m in srcs:
+                    if m not in rel:
+                        rel.add(m)
+                        changed = True
+    body._relv = rel
+    return rel
+
+
 def _shape_at(d, desc):
     """shape of the tracked value described by ('place', local, steps) in state d, or None"""
     if desc is None:
@@ -369,6 +439,7 @@ def explore(body, start, avoid=(), goals=None, state=None, limit=200000):
     stack = [(start, init, None)]
     parents = {}
     untracked = _mut_borrowed(body)
+    relevant = _relevant_locals(body)
     n = 0
     while stack:
         bb, st, par = stack.pop()
@@ -393,6 +464,8 @@ def explore(body, start, avoid=(), goals=None, state=None, limit=200000):
             return reached, out[::-1]
         d = dict(st)
         for (l, v) in _block_effects(body, bb):
+            if l not in relevant:
+                continue
             if v is None or l in untracked:
                 d.pop(l, None)
             elif v[0] == "clobber":
